@@ -749,6 +749,15 @@ static int _GD_AddSpec(DIRFILE* D, const char* line, const char* parent,
   if (D->error)
     GD_RETURN_ERROR(D);
 
+  /* Invalidate the field lists */
+  if (E) {
+    E->e->fl.value_list_validity = 0;
+    E->e->fl.entry_list_validity = 0;
+  } else {
+    D->fl.value_list_validity = 0;
+    D->fl.entry_list_validity = 0;
+  }
+
   /* Update aliases */
   _GD_UpdateAliases(D, 0);
 
